@@ -65,6 +65,13 @@ def source(h: Sequence[Tuple[int, ...]], members: str = '', generic: bool = Fals
         bl = [(f'C{b}[T]' if generic else f'C{b}') for b in bases]
         if generic and not bases:
             bl = ['Generic[T]']
+        # 'X=i:pos:Name,...': class i also has the undocumented (builtin) base Name at position pos of its base list
+        if 'X=' in members:
+            for item in members.split('X=')[1].split(';')[0].split(','):
+                if item:
+                    ci_, pos_, nm_ = item.split(':')
+                    if int(ci_) == i:
+                        bl.insert(int(pos_), nm_)
         L.append(f'class C{i}({", ".join(bl)}):' if bl else f'class C{i}:')
         body: List[str] = []
         # 'B=<digits>': those classes define nothing themselves; 'P': every class looks its inherited members up while it is being parsed
@@ -80,7 +87,7 @@ def source(h: Sequence[Tuple[int, ...]], members: str = '', generic: bool = Fals
             probes = [''.join(map(str, P)) for P in subsets(len(h)) if i not in P and set(P) & anc]
             if probes:
                 body.append(f'    def zz_probe_{i}(self):\n' + '\n'.join(f'        self.m_{t} = wrap(self.m_{t})' for t in probes))
-        if members and i not in bare:
+        if members.split('X=')[0] and i not in bare:
             for P in subsets(len(h)):
                 if i in P:
                     tag = ''.join(map(str, P))
@@ -95,7 +102,20 @@ def source(h: Sequence[Tuple[int, ...]], members: str = '', generic: bool = Fals
                                 if k != j:
                                     doc = f'\n        "doc e_{tag}_{j}_{k} from C{i}"' if i == j else ('\n        ""' if i == k else '\n        pass')
                                     body.append(f'    def e_{tag}_{j}_{k}(self):{doc}')
+        if 'N' in members.split('X=')[0] and i not in bare:
+            # family N: a nested class N_<P> defined in every class of P (a member like any other, found along the linearisation)
+            for P in subsets(len(h)):
+                if i in P and len(P) <= 2:
+                    tag = ''.join(map(str, P))
+                    body.append(f'    class N_{tag}:\n        "nested N_{tag} of C{i}"\n        def who(self):\n            "who of C{i}.N_{tag}"')
         L += body or ['    pass']
+    if 'N' in members.split('X=')[0] and only is None:
+        # classes whose base is written as an attribute of another class: resolved while the module is being parsed
+        for i in range(len(h)):
+            for P in subsets(len(h)):
+                if len(P) <= 2:
+                    tag = ''.join(map(str, P))
+                    L.append(f'try:\n    class Via_{i}_{tag}(C{i}.N_{tag}):\n        def who(self): pass\nexcept (AttributeError, NameError):\n    pass')
     return '\n'.join(L) + '\n'
 
 
@@ -167,14 +187,14 @@ def check_system(s: Any, modname_of: Any, chunk: Sequence[Any], members: str, re
                 continue
             if py[ci] is None:
                 continue
-            exp = [k.__name__ for k in py[ci].__mro__[:-1]]
+            exp = [k.__name__ for k in py[ci].__mro__[:-1] if re.fullmatch(r'C\d+', k.__name__)]
             got = [c.name for c in cls.mro()]
             if got != exp:
                 res['violations'].append(core.violation(f'{variant}/mro', f'C{ci} of {h}: Class.mro() = {got}, CPython __mro__ = {exp}', case))
                 continue
             if reported:
                 res['violations'].append(core.violation(f'{variant}/spurious-mro-report', f'C{ci} of {h} is consistent for CPython but an mro problem is reported', case))
-            if not members:
+            if not members.split('X=')[0]:
                 continue
             names = set()
             for k in py[ci].__mro__[:-1]:
@@ -230,6 +250,25 @@ def check_system(s: Any, modname_of: Any, chunk: Sequence[Any], members: str, re
                 got_o = m.group(1).split('.')[-2] if m else None
                 if (nxt[0] if nxt else None) != got_o:
                     res['violations'].append(core.violation(f'{variant}/overrides-note', f'C{ci}.{n} of {h}: note says overrides {got_o}, next definer along __mro__ is {nxt[:1]}', case))
+        if 'N' in members.split('X=')[0] and all(c is not None for c in py):
+            for ci in range(len(h)):
+                for P in subsets(len(h)):
+                    if len(P) > 2:
+                        continue
+                    tag = ''.join(map(str, P))
+                    nested = getattr(py[ci], f'N_{tag}', None)
+                    via = s.allobjects.get(modname_of(idx, ci) + f'.Via_{ci}_{tag}')
+                    if nested is None:
+                        continue          # attribute lookup fails in CPython: the class statement is skipped there
+                    definer = nested.__qualname__.split('.')[0]
+                    if via is None:
+                        res['violations'].append(core.violation(f'{variant}/base-through-class-attribute/missing', f'Via_{ci}_{tag} of {h} is not documented', case))
+                        continue
+                    bo = via.baseobjects[0] if via.baseobjects else None
+                    got_definer = bo.parent.name if bo is not None and bo.parent is not None else None
+                    if got_definer != definer:
+                        res['violations'].append(core.violation(f'{variant}/base-through-class-attribute/definer',
+                                                                f'class Via_{ci}_{tag}(C{ci}.N_{tag}) of {h}: base resolved in {got_definer}, attribute lookup finds it in {definer}', case))
         sys.modules.pop('c05oracle_mod', None)
 
 
@@ -466,6 +505,12 @@ def jobs(tier: str) -> Iterable[Tuple[str, Any]]:
     for start in range(0, 160, 20):
         yield ('members-parse-time-lookups:classes<=4', ('full', 4, start, 20, 'mP', False))
     yield ('members-parse-time-lookups:classes<=3', ('full', 3, 0, 10 ** 9, 'mdP', False))
+    for start in range(0, 160, 20):
+        yield ('bases-through-class-attributes:classes<=4', ('full', 4, start, 20, 'N', False))
+    yield ('bases-through-class-attributes:classes<=3', ('full', 3, 0, 10 ** 9, 'N', False))
+    # ... and through a class with ONE base that sits on top of each four-class hierarchy (nothing to merge at its own level)
+    for start in range(0, 160, 20):
+        yield ('bases-through-class-attributes:single-base-on-top', ('single-on-top', start, 20))
     # (3) generic-subscripted bases
     for start in range(0, 160, 40):
         yield ('generic:classes<=4', ('full', 4, start, 40, '', True))
@@ -479,6 +524,8 @@ def jobs(tier: str) -> Iterable[Tuple[str, Any]]:
         yield ('placed:classes<=4x2mods:chain', ('placed', 4, 2, style))
     for start in range(0, 160, 20):
         yield ('placed:classes<=5x2mods:cycle', ('placed5', start, 20))
+    for n in (2, 3):
+        yield (f'undocumented-bases:classes<={n}', ('external', n))
     yield ('hidden-definer:classes<=3', ('hidden', 3))
     yield ('hidden-definer-docs:classes<=3', ('hidden-docs', 3))
     # (5) mro.mro level, five classes (prefix = first 3 classes)
@@ -549,6 +596,30 @@ def run_job(job: Any, tier: str) -> Dict[str, Any]:
                         res['traces'] += 1
                         res['nontrivial'].add(core.h(h, assign, order, 'c5'))
         core.bump(res, 'placed_executions', cnt)
+    elif job[0] == 'single-on-top':
+        chunk = [tuple(h4) + ((3,),) for h4 in itertools.islice(hierarchies(4), job[1], job[1] + job[2])]
+        run_chunk(chunk, 'N', False, res)
+        for h in chunk:
+            res['nontrivial'].add(core.h(h, 'N-top'))
+        res['traces'] += len(chunk)
+    elif job[0] == 'external':
+        n = job[1]
+        specs = []
+        for h in hierarchies(n):
+            per_class = []
+            for i in range(n):
+                opts = [None] + [(pos, nm) for pos in range(len(h[i]) + 1) for nm in ('Exception',)]      # one and the same undocumented base everywhere: what it inherits from is beyond static knowledge, its own position is not
+                per_class.append(opts)
+            for combo in itertools.product(*per_class):
+                if not any(combo):
+                    continue
+                spec = 'X=' + ','.join(f'{i}:{c[0]}:{c[1]}' for i, c in enumerate(combo) if c)
+                specs.append((h, spec))
+        # one System per spec shape would be slow: group hierarchies by spec text
+        for h, spec in specs:
+            run_chunk([h], spec, False, res)
+            res['nontrivial'].add(core.h('external', h, spec))
+        core.bump(res, 'hierarchies_with_undocumented_bases', len(specs))
     elif job[0] == 'hidden':
         run_hidden(job[1], res)
     elif job[0] == 'hidden-docs':
